@@ -25,6 +25,8 @@ impl<'a> MetaStoreUpdate<'a> {
 
     pub fn add_failure(&mut self, address: String, reporter_id: String) -> bool {
         let now = Utc::now();
+        #[cfg(undermoon_verif)]
+        let now = crate::common::verif::utc_now(now);
         if let Some(true) = self
             .store
             .failures
@@ -48,6 +50,8 @@ impl<'a> MetaStoreUpdate<'a> {
         failure_quorum: u64,
     ) -> Vec<String> {
         let now = Utc::now();
+        #[cfg(undermoon_verif)]
+        let now = crate::common::verif::utc_now(now);
         for reporter_map in self.store.failures.values_mut() {
             reporter_map.retain(|_, report_time| {
                 let report_datetime =
